@@ -9,6 +9,17 @@ parsed by SAXParser, SAX2XMLReader, XercesDOMParser, the raw XMLDocumentHandler 
 parseFirst/parseNext), DOMLSParser without and with a pass-through filter, with and without entity-reference
 reporting, x IG/WF/DG/SG scanner x namespaces on/off; the canonical dump (parsedump.hpp) of each must equal the
 projection of the specification's infoset to what that API can show - hence all APIs and scanners agree.
+A difference that disappears when the same document is parsed by a fresh parser object is classified
+"history-dependence" (the harness reuses one parser object per configuration).
+
+Genuine defects found (known_findings.d/C03.json): DGXMLScanner + SAX2 endElement namespace URI; SAX2 startDTD missing
+for a DOCTYPE without subsets; IGXMLScanner (namespaces on) collapses character-reference TAB/LF/CR in tokenized
+attribute values; SGXMLScanner parser reuse changes the endElement qname.
+
+Mutants (mutants/C03/*.diff), all DETECTED: eol_lf_after_cr_kept (handleEOL), ig_default_attr_specified_true,
+ig_cdata_attr_charref_eol_normalized (normalizeAttValue), ls_filter_drops_cdata_flag (DOMLSParserImpl::docCharacters).
+Non-vacuity: appending one character to an expected "ch" event makes every configuration disagree; removing the
+line-end rule from the declarative AttChars makes TLC report invariant InfosetAgree violated.
 """
 from vf import common as C
 from vf.checks import c02
